@@ -239,9 +239,12 @@ def geomGraph (a : GraphArgs) (ps : List Piece) : Bool :=
            ((a.edgeLabels.filter fun l =>
               entryAt (specEs a) l.1.toNat l.2.1.toNat = 0 && shownSpec a l.1.toNat l.2.1.toNat).map
              fun l => (l.1.toNat, l.2.1.toNat))
-         if expected.all (fun e => (centre e.1).isSome && (centre e.2).isSome) then
+         -- arrows (`marker-end`) on every edge path of a directed drawing, on none of an undirected one
+         let arrows := countElems py!"path" (fun as => hasStroke as && (attrVal? as py!"marker-end").isSome) body
+         arrows == (if specDirected a then paths.length else 0) &&
+         (if expected.all (fun e => (centre e.1).isSome && (centre e.2).isSome) then
            matchEdges (specDirected a) centre expected paths
-         else true)
+         else true))
     | _, _ => true
 
 /-- `visualize_bigraph`: row shapes first, then column shapes (circles or pies) -/
